@@ -320,7 +320,8 @@ def run_case(ctx, case, probe_obj=None):
         text = codec.brackets_encode(bank, rng, empty_root=eo.get('empty_root'),
                                      layout=eo.get('layout', 'line'))
     elif fmt == 'discobrackets':
-        text = codec.discobrackets_encode(bank)
+        text = codec.discobrackets_encode(
+            bank, rng=rng if eo.get('shuffle_children') else None)
         if eo.get('no_final_newline'):
             text = text[:-1]
     else:
@@ -488,7 +489,8 @@ def draw_case(rng, fmt, quick):
             opts['brackets_firstid'] = rng.choice([0, 7, 1000])
         if rng.random() < 0.08:
             opts['disco_reordered'] = True
-        eo = {'no_final_newline': rng.random() < 0.3}
+        eo = {'no_final_newline': rng.random() < 0.3,
+              'shuffle_children': rng.random() < 0.5}
     else:
         if rng.random() < 0.3:
             opts['continuous'] = True
